@@ -203,6 +203,15 @@ def selftest(sc, topo, behs, c, checked):
 def run(prop, tier, seed, P, replay=None):
     """P: property profile (dict). Returns exit code."""
     t0 = time.time()
+    if replay:
+        rj = json.load(open(replay))
+        if "config" in rj:        # a forced approval schedule
+            import approval
+            return approval.run(prop, tier, seed, replay)
+        if "topo" not in rj:      # schedules / probes: re-run the part that produced it
+            print("replay: %s is reproduced by re-running the check part that wrote it (%s)" % (replay, rj.get("how", "forced schedules / probes")))
+            r = execute(prop, tier, seed, P)
+            return 1 if r["viol"] else 0
     r = execute(prop, tier, seed, P, replay)
     if replay:
         return r
@@ -330,6 +339,13 @@ def execute(prop, tier, seed, P, replay=None, clear=True):
                "checked_components": checked, "bad_steps": len(bad), "deviations_used": {k: v["n"] for k, v in devs.items()},
                "binding_selftest": st_res,
                "checker_cmd": "tlc CoreMC.tla (INVARIANTS InvTypeOK InvOneBinding InvWellFormed InvNoDangling, PROPERTY StepProperty); tlc CoreTrace.tla (monitor)"}
+        if P.get("approval"):
+            # the results a write pending approval gets (exactly one, whatever the verdicts and the timeout do)
+            import approval
+            ar = approval.execute(prop, tier, seed, sc, topo)
+            viol += ar["viol"]
+            cov["write_approval_results"] = ar["cov"]
+            cov["traces_validated_against_impl"] += ar["cov"]["schedules"]
         if P.get("approval_disconnect"):
             import approval
             ar = approval.execute(prop, tier, seed, sc, topo, disconnect=True)
@@ -338,7 +354,7 @@ def execute(prop, tier, seed, P, replay=None, clear=True):
             cov["traces_validated_against_impl"] += ar["cov"]["schedules"]
         if P.get("pair_probes"):
             import pairs
-            pr = pairs.execute(prop, tier, seed, sc, topo)
+            pr = pairs.execute(prop, tier, seed, sc, topo, kinds="" if P["pair_probes"] is True else P["pair_probes"])
             viol += pr["viol"]
             cov["pair_probes"] = pr["cov"]
             cov["traces_validated_against_impl"] += pr["cov"]["pair_probes"]
